@@ -261,7 +261,10 @@ def probe_strategy(tier):
             return {"kind": kind,
                     "case": draw(c01.strat_pipeline("quick", "by-hand"))}
         if kind == "minimise":
-            return {"kind": kind, "case": draw(c04.strat_oc("quick"))}
+            # minimiser probes share one small key space, so that anything a
+            # minimisation leaves behind can meet a later table
+            return {"kind": kind,
+                    "case": draw(c04.strat_oc("quick", c04.FIXED_KEYSPACE))}
         if kind == "bitfield":
             return {"kind": kind, "case": draw(c08.strat_free("quick"))}
         steps = draw(st.lists(st.fixed_dictionaries({
@@ -341,6 +344,49 @@ def check_history(case):
             "classes": ["probe=" + case["probe"]["kind"]]}
 
 
+# ------------------------------------------------ separate bit fields
+
+@st.composite
+def strat_bitfields(draw, tier):
+    from vf.props import c08
+    return {"histories": [draw(c08.strat_free("quick"))
+                          for _ in range(draw(st.integers(2, 4)))]}
+
+
+def check_bitfields(case):
+    """Definitions on separate bit fields are independent: the last history
+    gives the same result whether or not the others ran before it (sharing
+    the caller's tag-set objects, as a program with module-level tag
+    constants would)."""
+    from vf import probe as vprobe
+    pool = {}
+    saved = vprobe._TAG_SETS
+    try:
+        vprobe._TAG_SETS = pool
+        for h in case["histories"][:-1]:
+            vprobe.run_probe({"kind": "bitfield", "case": h})
+        after = vprobe.run_probe({"kind": "bitfield",
+                                  "case": case["histories"][-1]})
+        for key, sset in pool.items():
+            require(sset == set(key), "a bit field definition modified a "
+                    "set of tags owned by the caller",
+                    {"passed": sorted(key), "now": sorted(sset)})
+        vprobe._TAG_SETS = {}
+        alone = vprobe.run_probe({"kind": "bitfield",
+                                  "case": case["histories"][-1]})
+    finally:
+        vprobe._TAG_SETS = saved
+    a = json.dumps(after, sort_keys=True, default=repr)
+    b = json.dumps(alone, sort_keys=True, default=repr)
+    require(a == b, "a bit field behaves differently after definitions were "
+            "made on other, separate bit fields",
+            {"after_others": a[:700], "alone": b[:700]})
+    shared = any(isinstance(st_.get("tags"), dict)
+                 for h in case["histories"] for st_ in h["steps"])
+    return {"nontrivial": shared and after[0] == "ok",
+            "classes": ["shared-tag-sets"] if shared else []}
+
+
 # ------------------------------------------------- machine control objects
 
 def controller_probe(spec):
@@ -386,6 +432,15 @@ CLAUSES = [
                 "non-trivial = the run reached routing with >= 1 net",
            examples={"quick": 500, "thorough": 8000},
            shards={"quick": 8, "thorough": 16}),
+    Clause("separate-bitfields", check_bitfields, strategy=strat_bitfields,
+           rule="2-4 bit field histories (C08's generator, incl. tag sets "
+                "owned by the caller and re-used across bit fields) run one "
+                "after another; the last one must give the same layout, tags "
+                "and outcome as when run alone, and the caller's sets must be "
+                "unchanged; non-trivial = a history passes a shared set and "
+                "the last history lays out",
+           examples={"quick": 500, "thorough": 8000},
+           shards={"quick": 4, "thorough": 16}),
     Clause("history-independence", check_history, strategy=strat_history,
            rule="1-4/8 library calls with generated arguments (placers, the "
                 "whole pipeline, minimisers, bit field histories, controller "
